@@ -141,7 +141,24 @@ func (e *stEval) call(fn *ssa.Function, args []stVal) []stVal {
 						env[x] = rs[0]
 					}
 				}
-				// other calls (Lock, Unlock, Broadcast) do not touch the status
+				// other calls (Lock, Unlock, Broadcast) do not touch the status — unless the holder itself, or a method
+				// value / function literal bound to it, is handed to them: what such a callee does with the status is
+				// not evaluated, and saying "unchanged" would be a guess
+				if cal == nil || !(cal.Signature.Recv() != nil && len(x.Call.Args) > 0 && x.Call.Args[0] == ssa.Value(fn.Params[0])) {
+					for i, a := range x.Call.Args {
+						if i == 0 && cal != nil && cal.Signature.Recv() != nil {
+							continue
+						}
+						if mc, isMC := a.(*ssa.MakeClosure); isMC {
+							for _, bnd := range mc.Bindings {
+								if bnd == ssa.Value(fn.Params[0]) {
+									e.fail = "a function value bound to the status holder is handed to " + callName(x) + " in " + fnName(fn)
+									return nil
+								}
+							}
+						}
+					}
+				}
 			case *ssa.Defer, *ssa.RunDefers, *ssa.DebugRef:
 			case *ssa.If:
 				c := val(x.Cond)
